@@ -87,8 +87,8 @@ def _cm(rc: RuleCtx):
     for n in lists:
         benv[n] = ev.symbol(n + "@list")
     out = ev.eval_loop_body(fi, loop, benv)
-    if out.breaks or out.continues or out.returns:
-        raise AnalysisError("evaluation.cm: break/continue/return inside the matching loop")
+    if out.breaks or out.returns:
+        raise AnalysisError("evaluation.cm: break / return inside the matching loop")
     augs = [e for e in out.events if e.kind == "aug"]
     # identify tp / fn by the returned matrix layout (post-loop)
     penv = dict(out.env)
@@ -104,14 +104,20 @@ def _cm(rc: RuleCtx):
     if not (isinstance(m, Vec) and len(m.items) == 2 and all(isinstance(r, Vec) and len(r.items) == 2 for r in m.items)):
         raise AnalysisError("evaluation.cm: returned value is not a 2x2 matrix display")
     (v_tp, v_fp), (v_fn, v_tn) = m.items[0].items, m.items[1].items
-    # the two loop counters
+    # the two loop counters: how each zero-initialised counter changes over one iteration (any equivalent spelling
+    # of `c += 1`)
     inc = {}
-    for e in augs:
-        if e.args[0] == "+" and isinstance(e.args[1], Rat) and e.args[1].is_const() == 1:
-            inc.setdefault(e.target, []).append(e)
-        else:
-            res.violation("S1", mod, fi.name, e.node, f"counter {e.target} is updated by {e.args[0]}= {e.args[1]} instead of += 1",
-                          construct="cm counter update")
+    for cname in counters:
+        new = out.env.get(cname)
+        for g, v in cases_of(new):
+            if not isinstance(v, Rat):
+                continue
+            d = v.sub(sym(cname)).is_const()
+            if d == 1:
+                inc.setdefault(cname, []).append(g)
+            elif d != 0 and g_sat(g):
+                res.violation("S1", mod, fi.name, loop, f"counter {cname} changes by {v.sub(sym(cname))} in one iteration instead of 0 or 1",
+                              construct="cm counter update")
     tp_names = [n for n in inc if isinstance(v_tp, Rat) and v_tp.equals(sym(n))]
     fn_names = [n for n in inc if isinstance(v_fn, Rat) and v_fn.equals(sym(n))]
     if len(tp_names) != 1 or len(fn_names) != 1 or set(inc) != {tp_names[0], fn_names[0]}:
@@ -120,9 +126,9 @@ def _cm(rc: RuleCtx):
                       f"counters {sorted(inc)}, matrix {m}", "[[tp, fp], [fn, tn]] with tp, fn counted in the loop", construct="cm counters")
         return
     tp, fn = tp_names[0], fn_names[0]
-    g_tp = g_or(*[e.guard for e in inc[tp]])
-    g_fn = g_or(*[e.guard for e in inc[fn]])
-    lo, hi = count_true([e.guard for e in inc[tp] + inc[fn]])
+    g_tp = g_or(*inc[tp])
+    g_fn = g_or(*inc[fn])
+    lo, hi = count_true(inc[tp] + inc[fn])
     if (lo, hi) == (1, 1):
         res.ok("S1", "evaluation.cm:one-count", f"guards {g_tp} / {g_fn} partition every iteration => TP + FN = |E|")
     else:
@@ -273,14 +279,7 @@ def _errors(rc: RuleCtx):
             it = fr.expr(loop.iter, env)
             # which local is `b` (the searched side): the other point set used in the body
             ktake = Vec([anf.opaque("take", c, knees, array=True) for c in pts.items], "point")
-            kps = [nme for nme, v in env.items() if nme not in ("points", "expected") and isinstance(v, Vec) and v.kind == "point" and veq(v, ktake)]
-            if not kps:
-                res.violation("S6", mod, fi.name, fi.node, "the knee coordinates points[knees] are not what is matched against the expected points", "", "points[knees]",
-                              construct=f"{name} knee points")
-                return
-            kp = env[kps[0]]
-            env["knee_points!"] = kp
-            env["knee_points!name"] = kps[0]
+            env["knee_points!"] = ktake
             # len(points[knees]) is |K|
             table[sname] = (it, env)
         # decision table: iterated side per strategy
@@ -342,7 +341,7 @@ def _errors(rc: RuleCtx):
         if good:
             res.ok("S7", f"evaluation.{name}", "knees->K, expected->E, best->shorter side, worst->longer side")
         # the searched side must be the other set: check inside the body with a/b symbolic
-        _error_body(rc, name, fi, loop, post, table["knees"][1]["knee_points!name"])
+        _error_body(rc, name, fi, loop, post, table)
     if len({repr(sorted(t.items())) for t in tables.values()}) == 1:
         res.ok("S7", "evaluation.mae/mse/rmspe", "the three Strategy tables are identical")
         res.sample({"strategy_table": tables["mae"]})
@@ -362,7 +361,7 @@ def _len_of_kp(q: Rat) -> Rat:
     return b
 
 
-def _error_body(rc: RuleCtx, name: str, fi, loop, post, kp_name: str):
+def _error_body(rc: RuleCtx, name: str, fi, loop, post, table):
     res = rc.res
     mod = fi.module
     ev = rc.new_eval()
@@ -371,20 +370,17 @@ def _error_body(rc: RuleCtx, name: str, fi, loop, post, kp_name: str):
     p = ev.point("p")
     eps = ev.symbol("eps")
     if not (isinstance(loop.iter, ast.Name) and isinstance(loop.target, ast.Name)):
-        raise AnalysisError(f"evaluation.{name}: loop is not `for p in a`")
+        raise AnalysisError(f"evaluation.{name}: the matching loop is not `for p in <side>`")
     a_name, p_name = loop.iter.id, loop.target.id
-    # the searched side: the other name assigned together with the iterated one
     pre, _l, _p = split_at_loop(fi)
-    pair_names = set()
-    for st in ast.walk(ast.Module(body=pre, type_ignores=[])):
-        if isinstance(st, ast.Assign) and isinstance(st.targets[0], ast.Name) and isinstance(st.value, ast.Name) \
-                and st.value.id in (kp_name, "expected"):
-            pair_names.add(st.targets[0].id)
-    others = sorted(pair_names - {a_name})
-    if len(others) != 1:
-        raise AnalysisError(f"evaluation.{name}: cannot identify the searched side")
-    b_name = others[0]
-    # consistency: whenever a is E then b is K and vice versa -- checked structurally on each assignment pair
+    # the searched side: under Strategy.knees the iterated side is the knee points, so the searched side is the local
+    # (other than the iterated one) that holds the expected points; cross-checked under Strategy.expected
+    env_k, env_e = table["knees"][1], table["expected"][1]
+    cand = [n for n, v in env_k.items() if n not in (a_name, "expected", "points", "knee_points!") and isinstance(v, Vec) and v.kind == "point"
+            and veq(v, env_k["expected"]) and isinstance(env_e.get(n), Vec) and veq(env_e[n], env_e["knee_points!"])]
+    if len(cand) != 1:
+        raise AnalysisError(f"evaluation.{name}: cannot identify the searched side of the nearest-neighbour matching")
+    b_name = cand[0]
     # roles: the scalar accumulator (initialised to 0 before the loop) and the list of per-coordinate errors
     fr0 = Frame(ev, fi, 0)
     env0 = {"points": ev.point("points", True), "knees": ev.symbol("knees", True), "expected": ev.point("expected", True),
@@ -411,13 +407,12 @@ def _error_body(rc: RuleCtx, name: str, fi, loop, post, kp_name: str):
     else:
         want_term = None
     if name in ("mae", "mse"):
-        augs = [e for e in out.events if e.kind == "aug" and e.target == acc]
-        if len(augs) == 1 and augs[0].guard.kind == "true" and augs[0].args[0] == "+" and isinstance(augs[0].args[1], Rat) \
-                and augs[0].args[1].equals(want_term):
+        new_acc = out.env.get(acc)
+        if isinstance(new_acc, Rat) and new_acc.sub(sym("error")).equals(want_term):
             res.ok("S6", f"evaluation.{name}:term", f"error += {_short(want_term, 100)} at the Euclidean argmin")
         else:
             res.violation("S6", mod, fi.name, loop, f"the per-point error term of {name} is not the stated one at the Euclidean nearest neighbour",
-                          str([(e.args[0], _short(e.args[1])) for e in augs]), _short(want_term), construct=f"{name} error term")
+                          _short(new_acc.sub(sym("error")) if isinstance(new_acc, Rat) else new_acc, 200), _short(want_term), construct=f"{name} error term")
         # final division
         fr = Frame(ev, fi, 0)
         penv = {a_name: A, b_name: B, acc: ev.symbol("error")}
